@@ -58,6 +58,13 @@ def ring_shapes():
     ]
 
 
+def run_mir(tier, seed):
+    import sys, pathlib
+    sys.path.insert(0, str(pathlib.Path(__file__).resolve().parent.parent.parent / "mirsmt"))
+    import mir_check, dn
+    return mir_check.run_obligations([dn.ob_write_dn, dn.ob_subtrees, dn.ob_san])
+
+
 def spec(tier, seed):
     shapes = singletons() + combos() + ring_shapes()
     if tier == "thorough":
@@ -92,4 +99,4 @@ def spec(tier, seed):
     qs = [cert_query("c02", s, O_C02) for s in shapes]
     import c02_units
     qs += c02_units.queries(tier, seed)
-    return {"queries": qs, "exhaustive": False, "bounds": BOUNDS, "outside": OUTSIDE, "assumptions": ASSUME}
+    return {"queries": qs, "mir": run_mir, "exhaustive": False, "bounds": BOUNDS, "outside": OUTSIDE, "assumptions": ASSUME}
